@@ -401,7 +401,6 @@ func execMethods(spec string, parts []string) (res engine.Result) {
 		res.Hit("multi-order-case")
 	}
 	inherits := false
-	type failKey struct{ sig string }
 	reported := map[string]bool{}
 	fail := func(sig, detail string) {
 		if !reported[sig] {
@@ -589,6 +588,17 @@ func slotOf(inst slip.Object, name string) string {
 	return "unset"
 }
 
+// demandKind names how a demanded probe went wrong.
+func demandKind(val string) string {
+	switch {
+	case strings.HasPrefix(val, "go-fault"):
+		return "go-fault"
+	case strings.HasPrefix(val, "error"):
+		return "not-inherited"
+	}
+	return "wrong-value"
+}
+
 func errText(err *lisp.Err) string {
 	if err.GoFault {
 		return "go-fault:" + err.Message
@@ -771,11 +781,6 @@ func execVars(spec string, parts []string) (res engine.Result) {
 				fail(fmt.Sprintf("precedence shape=%s kind=wrong-order hist=%s", sh, hist),
 					fmt.Sprintf("%s: class precedence is [%s], required [%s]", where, o.prec, strings.Join(precS, " ")))
 			}
-			for _, fault := range []struct{ aspect, val string }{{"getter", o.getx}, {"setter", o.setx}, {"init-keyword", o.kw}, {"inittable-x", o.initx}, {"inittable-y", o.inity}} {
-				if strings.HasPrefix(fault.val, "go-fault") {
-					fail(sig(fault.aspect, "go-fault"), where+": "+fault.val)
-				}
-			}
 			if e.xDefault != nil && o.x0 != strconv.Itoa(*e.xDefault) {
 				fail(sig("default", "wrong-value"), fmt.Sprintf("%s: x is %s after make-instance, required %d (default of the first flavor in precedence that declares x)", where, o.x0, *e.xDefault))
 			}
@@ -783,34 +788,22 @@ func execVars(spec string, parts []string) (res engine.Result) {
 				fail(sig("default-y", "wrong-value"), fmt.Sprintf("%s: y is %s after make-instance, required %d", where, o.y0, *e.yDefault))
 			}
 			if e.xGettable && e.xDefault != nil && o.getx != o.x0 {
-				kind := "wrong-value"
-				if strings.HasPrefix(o.getx, "error") {
-					kind = "not-inherited"
-				}
+				kind := demandKind(o.getx)
 				fail(sig("getter", kind), fmt.Sprintf("%s: (send inst :x) gives %s, x holds %s; a flavor in precedence declares :gettable-instance-variables", where, o.getx, o.x0))
 			}
 			if e.xSettable && e.xDefault != nil && o.setx != "77" {
-				kind := "wrong-value"
-				if strings.HasPrefix(o.setx, "error") {
-					kind = "not-inherited"
-				}
+				kind := demandKind(o.setx)
 				fail(sig("setter", kind), fmt.Sprintf("%s: after (send inst :set-x 77) x is %s; a flavor in precedence declares :settable-instance-variables", where, o.setx))
 			}
 			if e.kAccepted && o.kw != "ok" {
-				fail(sig("init-keyword", "not-inherited"), fmt.Sprintf("%s: (make-instance 'f%d :k 5) gives %s; a flavor in precedence declares (:init-keywords :k)", where, f, o.kw))
+				fail(sig("init-keyword", demandKind(o.kw)), fmt.Sprintf("%s: (make-instance 'f%d :k 5) gives %s; a flavor in precedence declares (:init-keywords :k)", where, f, o.kw))
 			}
 			if e.xInittable && o.initx != "99" {
-				kind := "wrong-value"
-				if strings.HasPrefix(o.initx, "error") {
-					kind = "not-inherited"
-				}
+				kind := demandKind(o.initx)
 				fail(sig("inittable-x", kind), fmt.Sprintf("%s: (make-instance 'f%d :x 99) gives x=%s; a flavor in precedence declares x inittable", where, f, o.initx))
 			}
 			if e.yInittable && o.inity != "98" {
-				kind := "wrong-value"
-				if strings.HasPrefix(o.inity, "error") {
-					kind = "not-inherited"
-				}
+				kind := demandKind(o.inity)
 				fail(sig("inittable-y", kind), fmt.Sprintf("%s: (make-instance 'f%d :y 98) gives y=%s; a flavor in precedence declares (:inittable-instance-variables y)", where, f, o.inity))
 			}
 		}
